@@ -1565,6 +1565,9 @@ func tfdtTime(t *mp4.TfdtBox) uint64 { return t.BaseMediaDecodeTime() }
 //@   callsite SetBaseMediaDecodeTime requires sameShift: arg1 == tfdtTime(arg0) + (outSeg.meta.newTime - tfdtTime(seg.Fragments[0].Moof.Traf.Tfdt))
 //@   callsite CreateEmsgAhead requires interval: arg_segStart == outSeg.meta.newTime && arg_segEnd == outSeg.meta.newTime + uint64(outSeg.meta.newDur) && arg_timescale == uint64(outSeg.meta.timescale) && arg_perMinute == *cfg.SCTE35PerMinute
 //@   callsite CreateEmsgAhead requires videoOnly: outSeg.meta.rep.ContentType == "video"
+//@   callsite append:kept requires lastSegmentBrandNotKept: vararg0 != "lmsg" && !isLast
+//@   callsite NewStyp requires brandRemovedOnlyInsideTheStream: !isLast && hasLmsg
+//@   callsite AddCompatibleBrands requires lastSegmentOfTheSessionIsMarked: isLast
 //@   loop 1 invariant true
 //@   loop 2 invariant true
 
